@@ -115,6 +115,11 @@ def examine(case):
     except Exception as e:  # noqa: BLE001
         return fail(f"find-raised:{type(e).__name__}", f"find({q!r}) raised {type(e).__name__}: {e}", None, repr(e))
     f = check_nodes(nodes, doc)
+    if f is None and case.get("scalar_root"):
+        want = 1 if q == "$" else 0
+        if len(nodes) != want:
+            f = fail("scalar-root:node-count", f"find({q!r}) on the scalar {doc!r:.80} gives {len(nodes)} nodes; a scalar has no children",
+                     want, len(nodes))
     if f is None and len(nodes) >= 2:
         # a nodelist is a list: after the caller reorders it in place the helpers must follow the nodes
         nodes.paths(), nodes.items(), nodes.values()
@@ -200,6 +205,19 @@ def run_shard(spec, shard):
         f = examine(case)
         if f:
             shard.fail(f["bucket"], case, f)
+        if r.random() < 0.06:
+            # the query argument is a scalar - in particular a string that happens to hold JSON text, which is a JSON
+            # string like any other: '$' is its only node
+            import json
+            root = r.choice([json.dumps(doc), json.dumps(doc, indent=1), " " + json.dumps(doc), json.dumps([doc]), "[1, 2]", '{"a": 1}',
+                             '"a"', "$.a", "", "0", 0, None, True, 1.5, -0.0])
+            for q2 in ("$", text, "$.*", "$..*", "$[0]", "$[?@]"):
+                c2 = {"q": q2, "doc": root, "scalar_root": True}
+                shard.case(key=("scalar-root", q2, repr(root)), nontrivial=isinstance(root, str) and root[:1] in "[{ \"",
+                           classes={"scalar-root", "root:" + type(root).__name__}, sample={"q": q2, "doc": root if not isinstance(root, str) else root[:80]})
+                f = examine(c2)
+                if f:
+                    shard.fail(f["bucket"], c2, f)
 
     drive(rng(), spec["n"], spec["seed"], body)
 
